@@ -32,6 +32,7 @@ UDom(op, k) == CASE op = "log" -> "pos"
                  [] op = "tan" -> "cosok"
                  [] op = "pow" -> (IF k.d # 1 THEN (IF k.n > k.d THEN "pos,poszero" ELSE "pos") ELSE IF k.n < 0 THEN "nz" ELSE IF k.n <= 2 \/ k.n = 4 THEN "zero" ELSE "any")
                  [] op \in {"exp", "sinh", "cosh"} -> "any,small,big"        \* big: up to +-700, where e^x is still finite
+                 [] op = "tanh" -> "any,far"                                 \* far: |x| up to 300, where tanh x is 1 in floating point and its derivative is not 0
                  [] OTHER -> "any"
 
 UnaryDescs == Flatten2([i \in DOMAIN EGrid |->
@@ -114,7 +115,7 @@ YDims(op, par, dimsSeq) == OpApply(op, par, [k \in DOMAIN dimsSeq |-> SymT("t", 
 BDom(op) == CASE op = "div" -> <<"any", "nz">>
               [] op \in {"elmax", "elmin"} -> <<"any,any,any,tinyd", "any,nearcopy,any,zero">>       \* also: next to a tie, where the operation is still differentiable
               [] OTHER -> <<"any", "any">>
-ADom(op) == IF op \in {"maxalong", "minalong"} THEN "distinct,nearequal,tinyd" ELSE IF op = "stdalong" THEN "distinct,tinyspread" ELSE "any,distinct,tinyspread"
+ADom(op) == IF op \in {"maxalong", "minalong"} THEN "distinct,nearequal,tinyd" ELSE IF op = "stdalong" THEN "distinct,tinyspread,offsetd" ELSE "any,distinct,tinyspread,offsetd"
 
 (* op on a and on b, both results summed to one scalar root *)
 PairCase(op, par, s1, s2) ==
